@@ -357,6 +357,9 @@ fn main() {
     let mut run = |sc: Scenario, r: &mut Rng| {
         let rec = run_scenario(&sc, r);
         *hist.entry(format!("{}:{}", sc.family, rec.outcome)).or_default() += 1;
+        let mut sc = sc;
+        // a case run under the REAL wall clock (clock 0): the model is given the time at which the run ended
+        if sc.clock == 0 { sc.clock = std::time::SystemTime::now().duration_since(std::time::UNIX_EPOCH).unwrap().as_secs(); }
         print_case(&sc, &rec, &pubkey);
     };
     for fam in fams.iter() {
@@ -476,6 +479,22 @@ fn main() {
                     }
                     // operator-chosen expiries other than the default, 0 included (every cookie older than the
                     // very second it was issued is then refused), with ages on both sides of each
+                    // ONE case per run under the real wall clock (no clock hook): a cookie with a second of life left when it is
+                    // requested, presented 2.2 real seconds later - the expiry is judged when the cookie is checked
+                    if rep == 0 {
+                        let real_now = std::time::SystemTime::now().duration_since(std::time::UNIX_EPOCH).unwrap().as_secs();
+                        let mut p = base_params(&mut r, Intent::Transfer);
+                        let c = AuthCookie { timestamp: real_now - 59, client_addr: client, user_name: "Stale".into(), user_id: Uuid::from_u128(r.next() as u128),
+                            target: None, profile_properties: vec![], extra: Default::default() };
+                        p.auth_payload = Some(passage_protocol::cookie::sign(&serde_json::to_vec(&c).unwrap(), &secret_v));
+                        let ads = base_ads(&mut r);
+                        let mut sc = build("C02", &mut r, &p, ads, s.clone(), client, "real clock: cookie with 1 s left when requested, presented 2.2 s later".into());
+                        sc.clock = 0; sc.expiry = 60;
+                        // the auth cookie response is the second login Cookie Response (id 4)
+                        let pos: Vec<usize> = sc.acts.iter().enumerate().filter(|(_, a)| matches!(a, Act::Frame { id: 4, .. })).map(|(i, _)| i).collect();
+                        if pos.len() >= 2 { sc.acts.insert(pos[1], Act::RealSleep(2200)); }
+                        run(sc, &mut r);
+                    }
                     // secrets as they come out of a file: a trailing line feed, several lines.  Only the WHOLE secret
                     // validates; a cookie tagged under one of its lines, or under the empty key, is a forgery
                     for (sec, forged_keys) in [(b"topsecret\n".to_vec(), vec![b"topsecret".to_vec(), vec![]]),
